@@ -5,6 +5,7 @@
 package c06
 
 import (
+	"flag"
 	"fmt"
 	"testing"
 
@@ -12,8 +13,14 @@ import (
 	"verif.local/mc"
 )
 
+var mode = flag.String("vmode", "handler", "handler|listener")
+
 func TestCheck(t *testing.T) {
 	mc.Main(t, "C06", func(r *mc.Run) {
+		if *mode == "listener" {
+			listenerLayer(r)
+			return
+		}
 		type scen struct {
 			name  string
 			p     tsskit.Params
